@@ -792,6 +792,9 @@ def process_fn_block(head, lines, meta, stub=False):
             elif kw == 'atend':
                 cur = []
                 inserts.append(('atend', None, 1, cur))
+            elif kw == 'atstart':
+                cur = []
+                inserts.append(('atstart', None, 1, cur))
             elif kw == 'sub':
                 subs.append(('sub',) + parse_quoted_pair(arg))
             elif kw == 'closure':
@@ -807,6 +810,8 @@ def process_fn_block(head, lines, meta, stub=False):
                 sigsubs.append(parse_quoted_pair(arg))
             elif kw == 'rename':
                 rename = arg
+            elif kw == 'label':
+                meta.setdefault('fn_labels', {})[(implkey + '::' if implkey != '-' else '') + name] = re.findall(r'\[(C\d\d\.[\w\-.]+)\]', arg)
             else:
                 raise ExtractError('unknown directive //@' + kw)
         else:
@@ -869,6 +874,10 @@ def process_fn_block(head, lines, meta, stub=False):
             if mode == 'atend':
                 last = max(i for i, l in enumerate(blines) if l.strip() == '}')
                 blines[last:last] = ['/*@inj*/' + l for l in ins]
+                continue
+            if mode == 'atstart':
+                first = min(i for i, l in enumerate(blines) if l.strip().startswith('{'))
+                blines[first + 1:first + 1] = ['/*@inj*/' + l for l in ins]
                 continue
             hits = [i for i, l in enumerate(blines) if not l.startswith('/*@inj*/') and (l.strip() == anchor or l.strip().startswith(anchor))]
             if len(hits) < k:
